@@ -10,6 +10,6 @@ s=s.replace(old,new,1)
 open(f,'w').write(s)
 PY
 [ $? -eq 0 ] || { echo "--- [$name] pattern missing"; exit 0; }
-cd /verif && ./check $prop --repo /tmp/wt 2>&1 | grep -E "VIOLATION|failed obligation|UNDECIDED|NOTE|KNOWN|exit=" | cut -c1-230
+cd /verif && ./check $prop --repo /tmp/wt $MUT_EXTRA 2>&1 | grep -E "VIOLATION|failed obligation|UNDECIDED|NOTE|KNOWN|exit=" | cut -c1-230
 echo "--- [$name]"
 cd /tmp/wt && git checkout -q -- .
